@@ -43,6 +43,7 @@ class FnSpec:
         self.attrs = []         # extra attribute lines (assumptions, e.g. external_body)
         self.ret = "r"
         self.nobody = False     # replace body by unimplemented!() (with external_body)
+        self.r12 = False        # R12: inline Result combinators (and_then / map / map_err)
         self.mutself = False    # R10: `mut self` receiver -> `self` + `let mut self_ = self;` + rename in body
         self.line = 0
 
@@ -161,6 +162,8 @@ def parse_spec(path):
                     f.ret = v
                 elif k == "mutself":
                     f.mutself = True
+                elif k == "r12":
+                    f.r12 = True
                 elif k == "external_body":
                     f.attrs.append("#[verifier::external_body]")
                     f.nobody = False
@@ -240,8 +243,11 @@ class SrcFile:
             raise ExtractError("lost anchor: %s %s in %s (found %d)" % (kind, name, self.rel, len(out)))
         return out[0]
 
-    def find_impl(self, header):
+    def find_impl(self, header, fn_names=()):
         out = [it for it in self.items if it.kind == "impl" and it.header_norm == header and not is_cfg_test(self.toks, it)]
+        if len(out) > 1 and fn_names:
+            # several impl blocks with the same header: take the one that defines the requested functions
+            out = [it for it in out if all(any(s.kind == "fn" and s.name == n for s in self.sub_items(it)) for n in fn_names)]
         if len(out) != 1:
             raise ExtractError("lost anchor: impl `%s` in %s (found %d)" % (header, self.rel, len(out)))
         return out[0]
@@ -307,6 +313,75 @@ def invert_named_return(tt):
         out.append(tt[i])
         i += 1
     return out
+
+
+POSTFIX_STOP = {"=", "{", "}", ";", ",", "=>", "else", "return", "(", "[", "&&", "||", "!", "==", "!=", "<", ">", "+", "-", "*", "/", "&", "|", "in", "if", "match", "let", "?"}
+
+
+def inline_result_combinators(body, qual):
+    """R12: `X.and_then(|p| B)` -> `match X { Ok(p) => B, Err(e_) => Err(e_) }`,
+            `X.map(|p| B)`      -> `match X { Ok(p) => Ok(B), Err(e_) => Err(e_) }`,
+            `X.map(PATH)`       -> `match X { Ok(v_) => Ok(PATH(v_)), Err(e_) => Err(e_) }`,
+            `X.map_err(PATH)`   -> `match X { Ok(v_) => Ok(v_), Err(e_) => Err(PATH(e_)) }`
+    i.e. the std definitions of the Result combinators with the closure applied.  Repeated left to
+    right until no combinator call is left.  Newlines of the original text are kept."""
+    guard = 0
+    while True:
+        guard += 1
+        if guard > 50:
+            raise ExtractError("R12: too many combinators in %s" % qual)
+        toks = lex(body)
+        pair = match_delims(toks)
+        hit = None
+        for i, t in enumerate(toks):
+            if t.kind == "ident" and t.text in ("and_then", "map_err", "map") and i > 0 and toks[i - 1].text == "." and toks[i + 1].text == "(":
+                hit = i
+                break
+        if hit is None:
+            return body
+        i = hit
+        # receiver: walk left over the postfix chain
+        j = i - 2
+        while j >= 0:
+            tx = toks[j].text
+            if tx in (")", "]", "}"):
+                j = pair[j] - 1
+                continue
+            if tx == ">" and False:
+                pass
+            if tx in POSTFIX_STOP or (toks[j].kind == "punct" and tx not in (".", "::", ")", "]")):
+                break
+            j -= 1
+        r0 = j + 1
+        recv = body[toks[r0].start:toks[i - 2].end]
+        a0, a1 = i + 1, pair[i + 1]
+        arg_toks = toks[a0 + 1:a1]
+        name = toks[i].text
+        if arg_toks and arg_toks[0].text == "|":
+            k = 1
+            while arg_toks[k].text != "|":
+                k += 1
+            pat = body[arg_toks[1].start:arg_toks[k - 1].end]
+            cbody = body[arg_toks[k + 1].start:arg_toks[-1].end]
+            if name == "and_then":
+                new = "match %s { Ok(%s) => %s, Err(e_) => Err(e_) }" % (recv, pat, cbody)
+            elif name == "map":
+                new = "match %s { Ok(%s) => Ok(%s), Err(e_) => Err(e_) }" % (recv, pat, cbody)
+            else:
+                new = "match %s { Ok(v_) => Ok(v_), Err(%s) => Err(%s) }" % (recv, pat, cbody)
+        else:
+            path = body[arg_toks[0].start:arg_toks[-1].end]
+            if name == "map":
+                new = "match %s { Ok(v_) => Ok(%s(v_)), Err(e_) => Err(e_) }" % (recv, path)
+            elif name == "map_err":
+                new = "match %s { Ok(v_) => Ok(v_), Err(e_) => Err(%s(e_)) }" % (recv, path)
+            else:
+                new = "match %s { Ok(v_) => %s(v_), Err(e_) => Err(e_) }" % (recv, path)
+        # parenthesise when the match is itself a receiver / operand of `?`
+        nxt = toks[a1 + 1].text if a1 + 1 < len(toks) else ""
+        if nxt in (".", "?"):
+            new = "(" + new + ")"
+        body = body[:toks[r0].start] + new + body[toks[a1].end:]
 
 
 def desugar_for_loops(body, clauses, qual):
@@ -663,6 +738,10 @@ class Gen:
             if a in body:
                 body = body.replace(a, b)
                 used_rewrites.add(n)
+        r12 = bool(fs and fs.r12)
+        if r12:
+            body = inline_result_combinators(body, qual)
+            self.rule_uses.append(("R12", qual))
         desug = [c for c in (fs.clauses if fs else []) if c["kind"] == "desugar"]
         if desug:
             body = desugar_for_loops(body, desug, qual)
@@ -788,7 +867,11 @@ class Gen:
                 raise ExtractError("lost anchor: rewrite source text not found in %s: %s" % (qual, rw[1]))
             self.rule_uses.append((rw[0], qual))
         self.emit("//@item-end %s" % qual, ("glue",))
-        exp = expected_tokens(sf.text[b0:sf.toks[g_body_hi].end], rewrites, True)
+        src_fn_text = sf.text[b0:sf.toks[g_body_hi].end]
+        if r12:
+            # R12 has no independent inverse: the expected tokens use the same routine (see DESIGN 2.2)
+            src_fn_text = sf.text[b0:sf.toks[g_body_lo].start] + inline_result_combinators(sf.text[sf.toks[g_body_lo].start:sf.toks[g_body_hi].end], qual)
+        exp = expected_tokens(src_fn_text, rewrites, True)
         rule = ("R7:" + ",".join(c["text"].strip() for c in desug)) if desug else ("R8" if has_ens else None)
         if mutself:
             rule = "R10|" + (rule or "")
@@ -876,7 +959,7 @@ class Gen:
 
     # -- containers ----------------------------------------------------------------------------
     def gen_impl(self, modpath, sf, sec):
-        it = sf.find_impl(sec.arg)
+        it = sf.find_impl(sec.arg, [c.arg for c in sec.children if c.kind == "fn"])
         toks = sf.toks
         subs = sf.sub_items(it)
         m = re.match(r"^impl\s*(<.*?>)?\s*(.*?)$", sec.arg)
